@@ -338,7 +338,14 @@ func (s *jsession) exec(op string) string {
 		hadBuf := len(s.buffer()) > 0
 		paWas := s.getPassAt()
 		nOut := len(s.outs)
+		opStart := time.Now()
 		s.call(func() { s.process(id, xs) })
+		if len(s.outs) > nOut && s.busy == nil && s.st == "run" && s.getPassAt().Before(opStart) {
+			// C09 / C10: every delivery restarts the timer (after the write has completed): a timer
+			// left at an older moment flushes the next short slice too early, one restarted later
+			// keeps elements longer than the bound
+			s.fail("C09 a slice was delivered while this element was processed but the timeout timer was not restarted: it still counts from %v before the delivery", opStart.Sub(s.getPassAt()))
+		}
 		if hadBuf && len(s.outs) == nOut && !s.getPassAt().Equal(paWas) {
 			s.fail("C10 accepting an element reset the timeout timer although older elements stay buffered (they can be delayed beyond Timeout)")
 		}
@@ -358,6 +365,9 @@ func (s *jsession) exec(op string) string {
 			}
 			s.ticked = true
 			s.call(s.pass)
+		} else if time.Duration(e) >= 2*s.timeout && len(s.buffer()) > 0 {
+			// C10: twice the Timeout has elapsed since passAt and elements are buffered
+			s.fail("C10 the timeout test fails %v after passAt (Timeout %v) although elements are buffered: they stay longer than Timeout*(1+1/floor(100/inaccuracy))", time.Duration(e), s.timeout)
 		}
 	case "close":
 		if s.busy != nil || s.st == "done" {
